@@ -918,3 +918,31 @@ Section Oracle.
     apply (glob_tail_ok cx cx_lbuf cx_len cx_get cx_gset cx_gget) with (bs := bs) (os := os); first [assumption|exact cx_find|exact cx_exec|idtac].
   Qed.
 End Oracle.
+
+(* ------------------------------------------------------------------ ec_glob itself: the nesting guard (/repo daf82c9) *)
+(* what ec_glob's entry does to the memory: the locals whose address is taken live in blocks of their own (offs[32], beg, end, pat, s = arg) *)
+Definition glob_entry_mem (m : mem) (varg : val) : mem := ((((m ++ [repeat VUndef 32]) ++ [[VUndef]]) ++ [[VUndef]]) ++ [[VUndef]]) ++ [[varg]].
+Lemma store_new_cell (m : mem) v w : store (m ++ [[v]]) (length m) 0 w = Ok (m ++ [[w]]).
+Proof.
+  rewrite (store_ok (m ++ [[v]]) (length m) [v]); [|apply nth_error_app_new|cbn; lia]. rewrite upd_app_new. reflexivity.
+Qed.
+(* a global started inside seven running ones (xgdep >= 7): ex_show("global nesting too deep") is called, the result is 1, and NOTHING else
+   happens -- no line is marked, xgdep is not touched; the memory is the one ex_show leaves *)
+Theorem tr_ec_glob_too_deep ext fuel d vloc vcmd ba oa vtxt (m : mem) g v m' :
+  cell_at m G_xgdep g -> 7 <= g -> i32 g ->
+  ext X_ex_show [VPtr G_lit_676c6f62616c206e657374696e6720746f6f2064_23 0] (glob_entry_mem m (VPtr ba oa)) = Ok (v, m') ->
+  callx ext cprog fuel (S (S d)) F_ec_glob [vloc; vcmd; VPtr ba oa; vtxt] m = Ok (VInt 1, m').
+Proof.
+  intros Hg H7 Hi Hshow.
+  assert (Hlt : (G_xgdep < length m)%nat) by (apply nth_error_Some; unfold cell_at in Hg; congruence).
+  rewrite callx_S. change (nth_error cprog F_ec_glob) with (Some cf_ec_glob).
+  cbn [fn_nparams cf_ec_glob length Nat.eqb fn_nlocals Nat.sub repeat app]. rewrite ec_glob_shape. unfold glob_frame.
+  repeat (progress (rewrite ?exec_seq, ?exec_expr; cbn [eval bind do_builtin_m Z.ltb Z.compare set_local locals set_nth memm get_local nth_error Z.to_nat])).
+  change (Pos.to_nat 1) with 1%nat. cbn [repeat]. rewrite store_new_cell. cbn [bind locals memm]. change (Pos.to_nat 32) with 32%nat.
+  fold (glob_entry_mem m (VPtr ba oa)).
+  rewrite exec_seq. unfold glob_guard. rewrite exec_if. unfold gdep_ld. cbn [eval bind memm].
+  assert (Hg' : load (glob_entry_mem m (VPtr ba oa)) G_xgdep 0 = Ok (VInt g)).
+  { unfold load, glob_entry_mem. rewrite !nth_error_app1 by (rewrite ?app_length; cbn [length]; lia). unfold cell_at in Hg. rewrite Hg. reflexivity. }
+  rewrite Hg'. cbn [bind]. rewrite (wrap_i32 g Hi). cbn [as_int bind arith]. destruct (Z.leb_spec 7 g); [|lia]. cbn [b2z truth negb Z.eqb].
+  rewrite exec_seq, exec_expr. cbn [eval bind memm]. rewrite callx_S, x_ex_show_none. rewrite Hshow. cbn [bind]. rewrite exec_return. reflexivity.
+Qed.
